@@ -351,6 +351,13 @@ class Canon:
                 zm = zip_map(self.p(e.args[0].args[0], frame, d, seen), self.p(e.args[0].args[1], frame, d, seen))
                 if zm is not None:
                     return zm
+            if isinstance(e.func, ast.Name) and e.func.id == 'dict' and len(e.args) == 1 and not e.keywords:
+                # dict(<sequence of (key, value) pairs>) is the map it spells out
+                sp = split_seq(self.p(e.args[0], frame, d, seen))
+                if sp is not None:
+                    k, v = tuple_component(sp[0], 0), tuple_component(sp[0], 1)
+                    if k is not None and v is not None and tuple_component(sp[0], 2) is None:
+                        return 'map[%s: %s for %s%s]' % (k, v, sp[1], sp[2])
             src = copy_source(e, order=True)
             if src is not None:
                 return self.p(src, frame, d, seen)
